@@ -140,6 +140,33 @@ def c_mutants(rel, text):
     return out
 
 
+def fj_mutants(rel, text):
+    """single-token mutants of the code part (not the comments, not the `def` headers) of a .fj file"""
+    import re
+    out = []
+    lines = text.split('\n')
+    pos = 0
+    for ln, line in enumerate(lines, 1):
+        code = line.split('//', 1)[0]
+        if code.strip() and not re.match(r'\s*(def|ns)\b', code) and code.strip() not in ('{', '}'):
+            for m in re.finditer(r'\bdw\b|\bdbit\b|(?<![\w.])\d+\b|[-+]|<<|>>|(?<![<>=!])[<>](?![<>=])', code):
+                tok = m.group(0)
+                if tok == 'dw':
+                    new = 'w'
+                elif tok == 'dbit':
+                    new = 'dw'
+                elif tok.isdigit():
+                    if int(tok) > 64:
+                        continue
+                    new = str(int(tok) + 1)
+                else:
+                    new = {'+': '-', '-': '+', '<<': '>>', '>>': '<<', '<': '>', '>': '<'}[tok]
+                a = pos + m.start()
+                out.append((f'line {ln} `{tok}` -> `{new}`: {code.strip()[:70]}', text[:a] + new + text[a + len(tok):]))
+        pos += len(line) + 1
+    return out
+
+
 def analyse(args):
     rel, desc, new_text, props = args
     known = load_known_findings()
@@ -186,13 +213,13 @@ if __name__ == '__main__':
     repo = Repo()
     tasks = []
     for rel in sorted({f for s in READS.values() for f in s}):
-        if (only and only not in rel) or not rel.endswith('.c' if '--c' in sys.argv else '.py'):
+        if (only and only not in rel) or not rel.endswith('.c' if '--c' in sys.argv else '.fj' if '--fj' in sys.argv else '.py'):
             continue
         props = [p for p in PROPS if rel in READS[p]]
-        for desc, new in (c_mutants(rel, repo.src(rel)) if rel.endswith('.c') else mutants(rel, repo.src(rel))):
+        for desc, new in (c_mutants(rel, repo.src(rel)) if rel.endswith('.c') else fj_mutants(rel, repo.src(rel)) if rel.endswith('.fj') else mutants(rel, repo.src(rel))):
             tasks.append((rel, desc, new, props))
     if '--phase-b' in sys.argv:
-        unc = json.loads(Path('/tmp/mutant_silent_c.json' if '--c' in sys.argv else '/tmp/mutant_silent.json').read_text())
+        unc = json.loads(Path('/tmp/mutant_silent_c.json' if '--c' in sys.argv else '/tmp/mutant_silent_fj.json' if '--fj' in sys.argv else '/tmp/mutant_silent.json').read_text())
         survivors = []
         with ProcessPoolExecutor(max_workers=jobs) as ex:
             for rel, desc, rc, tail in ex.map(run_tests, [(k, t[0], t[1], t[2]) for k, t in enumerate(unc)]):
@@ -200,7 +227,7 @@ if __name__ == '__main__':
                 if rc == 0:
                     survivors.append((rel, desc))
         print(f'phase B: {len(unc) - len(survivors)} of the {len(unc)} silent mutants fail the test suite; {len(survivors)} survive both')
-        Path('/tmp/mutant_survivors_c.json' if '--c' in sys.argv else '/tmp/mutant_survivors.json').write_text(json.dumps(survivors, indent=1))
+        Path('/tmp/mutant_survivors_c.json' if '--c' in sys.argv else '/tmp/mutant_survivors_fj.json' if '--fj' in sys.argv else '/tmp/mutant_survivors.json').write_text(json.dumps(survivors, indent=1))
         sys.exit(0)
     random.Random(1).shuffle(tasks)
     if mx:
@@ -214,7 +241,7 @@ if __name__ == '__main__':
             else:
                 uncaught.append(t)
     print(f'phase A: {caught} of {len(tasks)} mutants reported by a check; {len(uncaught)} silent')
-    Path('/tmp/mutant_silent_c.json' if '--c' in sys.argv else '/tmp/mutant_silent.json').write_text(json.dumps([[t[0], t[1], t[2]] for t in uncaught]))
+    Path('/tmp/mutant_silent_c.json' if '--c' in sys.argv else '/tmp/mutant_silent_fj.json' if '--fj' in sys.argv else '/tmp/mutant_silent.json').write_text(json.dumps([[t[0], t[1], t[2]] for t in uncaught]))
     if '--no-tests' in sys.argv:
         for rel, desc, _, _ in uncaught:
             print('SILENT', rel, desc)
@@ -226,4 +253,4 @@ if __name__ == '__main__':
                 survivors.append((rel, desc))
                 print('SURVIVOR', rel, desc)
     print(f'phase B: {len(uncaught) - len(survivors)} of the silent mutants fail the test suite; {len(survivors)} survive both')
-    Path('/tmp/mutant_survivors_c.json' if '--c' in sys.argv else '/tmp/mutant_survivors.json').write_text(json.dumps(survivors, indent=1))
+    Path('/tmp/mutant_survivors_c.json' if '--c' in sys.argv else '/tmp/mutant_survivors_fj.json' if '--fj' in sys.argv else '/tmp/mutant_survivors.json').write_text(json.dumps(survivors, indent=1))
